@@ -98,4 +98,54 @@ theorem copy_collision_refused (t s : Tree) (u p : Nat) (m : List (Nat × Nat))
 example : (step exTree (.create 1 (exEnt 3 .object))).2 = .refused := by decide
 example : (step exTree (.copy 3 1 [(3, 30), (4, 40)])).1.uids = [1, 2, 3, 4, 5, 30, 40] := by decide
 
+
+/-! ### copies into another workspace -/
+
+/-- **an identifier that is free in the target workspace is kept** -/
+theorem cross_keeps_free (used : List Nat) (u f : Nat) (h : u ∉ used) : crossId used u f = u := by
+  simp [crossId, h]
+
+/-- an identifier in use there is replaced by the fresh one -/
+theorem cross_replaces_used (used : List Nat) (u f : Nat) (h : u ∈ used) : crossId used u f = f := by
+  simp [crossId, h]
+
+/-- whatever is chosen is not in use in the target (given a fresh identifier that is not) -/
+theorem cross_not_used (used : List Nat) (u f : Nat) (hf : f ∉ used) : crossId used u f ∉ used := by
+  unfold crossId; split
+  · exact hf
+  · rename_i h; simpa using h
+
+/-- the identifiers given to a whole copied subtree are pairwise distinct and distinct from every identifier in
+    use in the target, provided the fresh identifiers are new and pairwise distinct and the sources are -/
+theorem crossIds_nodup (used : List Nat) (l : List (Nat × Nat))
+    (hsrc : (l.map (·.1)).Nodup) (hfr : (l.map (·.2)).Nodup)
+    (hnew : ∀ p ∈ l, p.2 ∉ used ∧ ∀ q ∈ l, p.2 ≠ q.1) :
+    (crossIds used l).Nodup ∧ ∀ x ∈ crossIds used l, x ∉ used := by
+  induction l generalizing used with
+  | nil => simp [crossIds]
+  | cons p rest ih =>
+    obtain ⟨u, f⟩ := p
+    simp only [List.map_cons, List.nodup_cons] at hsrc hfr
+    have hc := cross_not_used used u f (hnew (u, f) (by simp)).1
+    have hval : crossId used u f = u ∨ crossId used u f = f := by unfold crossId; split <;> simp
+    have hrest := ih (crossId used u f :: used) hsrc.2 hfr.2 (by
+      intro q hq
+      have hq' := hnew q (List.mem_cons_of_mem _ hq)
+      refine ⟨?_, fun r hr => hq'.2 r (List.mem_cons_of_mem _ hr)⟩
+      intro hmem
+      rcases List.mem_cons.mp hmem with h | h
+      · rcases hval with hv | hv
+        · exact hq'.2 (u, f) (by simp) (by rw [h, hv])
+        · have : q.2 = f := by rw [h, hv]
+          exact hfr.1 (by rw [← this]; exact List.mem_map_of_mem hq)
+      · exact hq'.1 h)
+    simp only [crossIds]
+    refine ⟨List.nodup_cons.mpr ⟨fun hm => (hrest.2 _ hm) (by simp), hrest.1⟩, ?_⟩
+    intro x hx
+    rcases List.mem_cons.mp hx with h | h
+    · rw [h]; exact hc
+    · exact fun hu => hrest.2 x h (List.mem_cons_of_mem _ hu)
+
+example : crossIds [1, 2, 3] [(3, 30), (4, 40), (5, 50)] = [30, 4, 5] := by decide
+
 end GeoVerif.Ws
